@@ -48,6 +48,24 @@ class C05(object):
                                    max_support=10)
             name = rng.choice(MEASURES)
             groups, crvs = self.rand_shape(rng, n, name)
+            if name == 'caekl_mutual_information' and rng.random() < 0.6:
+                # four or five groups, where the optimal partition may be an intermediate one
+                n = rng.choice([4, 4, 5])
+                d = gen.rand_dist_case(rng, nmin=n, nmax=n, amax=2, bases=['linear'], allow_space=False, max_support=10)
+                if rng.random() < 0.5:
+                    # structured: some variables are functions (xor / copies) of two fair bits
+                    outs = []
+                    fns = [rng.choice(['a', 'b', 'x', 'x', 'c']) for _ in range(n)]
+                    for a in (0, 1):
+                        for b in (0, 1):
+                            outs.append([{'a': a, 'b': b, 'x': a ^ b, 'c': 0}[f] for f in fns])
+                    uniq = []
+                    for o in outs:
+                        if o not in uniq:
+                            uniq.append(o)
+                    d.update({'outs': uniq, 'pmf': [str(Fraction(1, len(uniq)))] * len(uniq),
+                              'alphabets': [[0, 1]] * n, 'klass': 'tuple', 'names': None, 'space': None})
+                groups, crvs = [[i] for i in range(n)], []
             d['measure'] = name
             d['groups'] = groups
             d['crvs'] = crvs
@@ -191,6 +209,20 @@ class C05(object):
                     fails = '%s of two groups = %r but I(X:Y|Z) = %r' % (name, val, cmi)
                 elif cmi < -1e-9:
                     fails = 'I(X:Y|Z) negative: %r' % cmi
+        if not fails and len(d.outcomes) >= 2:
+            # evaluate again after an in-place change of the same object (a stale cache would show here)
+            o1, o2 = d.outcomes[0], d.outcomes[-1]
+            p1, p2 = d[o1], d[o2]
+            if p1 != p2:
+                d[o1], d[o2] = p2, p1
+                try:
+                    val2 = float(f(d, *args, **kw))
+                    ref2 = self.reference(name, groups, crvs, k, self.entropies(d, case))
+                    if abs(val2 - ref2) > 1e-8:
+                        fails = ('after swapping two probabilities in place, %s = %r but its defining combination gives %r'
+                                 % (name, val2, ref2))
+                except Exception as e:  # noqa
+                    fails = '%s raised %s after an in-place change' % (name, type(e).__name__)
         r.oracle_fail = fails
         r.detail = {'impl': val, 'model': mval, 'reference': ref,
                     'impl_coeffs': None if sym is None else [(s, str(c)) for s, c in sym]}
